@@ -1,0 +1,22 @@
+//go:build verif
+
+// Contracts for gvc (/verif). Comment-only: this file adds no declarations.
+
+package doc
+
+// C17 sweep: zero-annotation panic-freedom obligations for the module's functions,
+// for every argument value.
+//@ func showOptions.SetDefaultOptions
+//@   props C17
+//@ func show
+//@   props C17
+//@ func find
+//@   props C17
+//@ func Source
+//@   props C17
+//@ func symbols
+//@   props C17
+//@ func docsMap
+//@   props C17
+//@ func match
+//@   props C17
